@@ -52,6 +52,58 @@ Theorem C09_unmarshal_ok_valid :
 Proof. exact (fun F pf ff H1 H2 => unmarshal_stream_ok ff H1 H2 pf). Qed.
 Print Assumptions C09_unmarshal_ok_valid.
 
+(** A Decoder used for several values (More / Decode / Decode ...): a call
+    of Decode either hands json.Unmarshal a text that is valid JSON denoting
+    the tree parsed for it, or returns a non-empty error list; it never gives
+    json.Unmarshal a text that one rejects.  So every value of the stream
+    read until More() is false (or the first error) is valid JSON with the
+    meaning of its tree. *)
+Theorem C09_decode_step_valid :
+  forall (F : Type) (pf : list N -> option F) (ff : F -> list N),
+  (forall f, is_json_number (ff f) = true) -> (forall f r, ff f <> 45 :: r) ->
+  forall st r st', decode_step pf ff st = Some (r, st') ->
+  match r with
+  | DOk t => exists v, json_parse t = Some (denote ff v)
+  | DJsonErr _ => False
+  | DErrs es => es <> []
+  end.
+Proof. exact (fun F pf ff H1 H2 => decode_step_valid ff H1 H2 pf). Qed.
+Print Assumptions C09_decode_step_valid.
+
+Theorem C09_decode_stream_valid :
+  forall (F : Type) (pf : list N -> option F) (ff : F -> list N),
+  (forall f, is_json_number (ff f) = true) -> (forall f r, ff f <> 45 :: r) ->
+  forall input vs fin, decode_all pf ff input = Ok (vs, fin) ->
+  Forall (fun t => exists v, json_parse t = Some (denote ff v)) vs /\
+  match fin with Some (DJsonErr _) | Some (DOk _) => False | _ => True end.
+Proof. exact (fun F pf ff H1 H2 => decode_all_valid ff H1 H2 pf). Qed.
+Print Assumptions C09_decode_stream_valid.
+
+(** DecodeSeries with any TypeMaker [tm] (a type name is unknown, or comes
+    with the predicate "encoding/json's strict decoding into the value made
+    for it accepts this text" - encoding/json itself stays trusted): every
+    entry returned carries valid JSON denoting the parsed entry, its type is
+    known and its decoder accepted exactly that text; an unknown type or a
+    rejected text (unknown field, type mismatch) makes the whole call fail. *)
+Theorem C09_typed_series_valid :
+  forall (F : Type) (pf : list N -> option F) (ff : F -> list N),
+  (forall f, is_json_number (ff f) = true) -> (forall f r, ff f <> 45 :: r) ->
+  forall tm input res errs, decode_series pf ff tm input = Ok (Some res, errs) ->
+  errs = [] /\
+  Forall (fun nt => exists v acc, json_parse (snd nt) = Some (denote ff v) /\
+                                  tm (fst nt) = Some acc /\ acc (snd nt) = true) res.
+Proof. exact (fun F pf ff H1 H2 => decode_series_valid ff H1 H2 pf). Qed.
+Print Assumptions C09_typed_series_valid.
+
+Theorem C09_typed_series_all_or_nothing :
+  forall (F : Type) (pf : list N -> option F) (ff : F -> list N) tm s res,
+  decode_series_stream pf ff tm s = Some (Some res, []) ->
+  exists es st1, parse_series pf (parse_fuel (p_init s)) (p_init s) [] = Some (es, st1) /\
+    p_errs st1 = [] /\ List.length res = List.length es /\
+    Forall (fun e => exists acc t, tm (fst e) = Some acc /\ encode_value ff (snd e) = Some t /\ acc t = true) es.
+Proof. exact (fun F pf ff => decode_series_all_or_nothing ff pf). Qed.
+Print Assumptions C09_typed_series_all_or_nothing.
+
 (** Integers: the emitted digits are a JSON number of exactly the value of
     the Go-style literal (hexadecimal, octal or decimal), also after a minus
     sign. *)
